@@ -5,6 +5,7 @@ import (
 	"encoding/json"
 	"fmt"
 	"math/rand"
+	"reflect"
 	"regexp"
 	"sort"
 	"strings"
@@ -367,7 +368,15 @@ func applyWalk(text string, walk []rwOp, seed int64) (string, []string, error) {
 			}
 			res = append(res, l)
 		}
-		out = strings.Join(res, "\n")
+		blanked := strings.Join(res, "\n")
+		// a line at column 0 may also be the continuation or the closing quote of a multi-line scalar: blank lines there
+		// would change the text of the scalar.  The restyled text is used only if it still denotes the same document.
+		var before, after any
+		if yaml.Unmarshal([]byte(out), &before) == nil && yaml.Unmarshal([]byte(blanked), &after) == nil && reflect.DeepEqual(before, after) {
+			out = blanked
+		} else {
+			applied = append(applied, "style:blank(not applied: it would change a multi-line scalar)")
+		}
 	}
 	if !strings.HasPrefix(out, "#%") {
 		out = "#%Validation Profile 1.0\n" + out
